@@ -281,7 +281,9 @@ class UTPM(Ring, RawAlgorithmsMixIn):
         ybar, dummy, xbar = out
         # print 'xbar =', xbar
         # print 'ybar =', ybar
-        xbar += ybar[sl]
+        # a constant array on the right hand side has no adjoint (xbar is None)
+        if xbar is not None:
+            xbar += ybar[sl]
         ybar[sl].data[...] = 0.
         # print 'funcargs=',funcargs
         # print y[funcargs[0]]
